@@ -267,6 +267,36 @@ def pubStep (s : PubSt) : PubEv → PubSt × Option Nat
   | .write p tag => (s, if p == s.cur then some tag else none)
   | .race p tag => ({ cur := s.cur + 1 }, if p == s.cur + 1 then some tag else none)
 
+/-! ### RTP publishers on an always-available stream: the depacketiser state belongs to the publisher's sub stream
+
+An RTP publisher's packets are collected until the marker; a publisher that takes over starts with a fresh
+depacketiser — data a previous publisher left incomplete never shows up in the new publisher's units. -/
+
+structure RtpSt where
+  cur : Option Nat := none      -- index of the current RTP publisher (none: the offline filler runs)
+  n : Nat := 0                  -- publishers so far
+  pending : List Nat := []      -- tags of the NAL units collected since the last marker
+deriving Repr
+
+inductive RtpEv where
+  /-- a new RTP publisher takes over and sends one priming packet (tag 65535, marker set) -/
+  | pubr
+  /-- the publisher leaves, the offline sub stream takes over -/
+  | off
+  /-- publisher `p` sends a single-NAL-unit packet carrying `tag` -/
+  | rtp (p tag : Nat) (marker : Bool)
+deriving Repr
+
+/-- new state and the access unit (tags) delivered to the readers, if any -/
+def rtpStep (s : RtpSt) : RtpEv → RtpSt × Option (List Nat)
+  | .pubr => ({ cur := some (s.n + 1), n := s.n + 1, pending := [] }, some [65535])
+  | .off => ({ s with cur := none, pending := [] }, none)
+  | .rtp p tag marker =>
+    if s.cur == some p then
+      if marker then ({ s with pending := [] }, some (s.pending ++ [tag]))
+      else ({ s with pending := s.pending ++ [tag] }, none)
+    else (s, none)
+
 /-- the retained units, re-read at the end of the history: `reader:payload/payload/…;…` -/
 def fmtRetained (l : List (Nat × List String)) : String :=
   if l.isEmpty then "k=-" else
